@@ -41,6 +41,9 @@ func probe() {
 		}
 		r := e.Query(eng.SameSession(cur), line)
 		fmt.Printf("%-72s => %s", line, r.Class())
+		if r.Panic != "" {
+			fmt.Printf(" [panic: %s]", r.Panic)
+		}
 		if r.Err != nil {
 			fmt.Printf(" (%v)", r.Err)
 		}
